@@ -145,6 +145,24 @@ func C13(p *engine.Prog, r *engine.Report) {
 		"tree": "storage handle, re-pointed only by SwitchToPreliminary — not cached data",
 	}, "what a rejected or abandoned block wrote into this cache is seen by the next block evaluated on the same state object")
 	r.Floor("C13-R7", 18, "20 StateDB cache fields + 2 IdentityStateDB on the pinned tree")
+	// ---------------- R5 (cont.): the cache is keyed by height only, so every rewind of the trees drops it
+	if rt := mustFunc(p, r, "core/appstate", "AppState.ResetTo"); rt != nil {
+		r.Fn(engine.FuncName(rt))
+		var drop *ssa.Store
+		for _, st := range storesToField([]*ssa.Function{rt}, "AppState", "readonlyStateCache") {
+			drop = st
+		}
+		ok := drop != nil
+		if ok {
+			// before the trees are touched: the store dominates every call that rewinds a tree
+			for _, c := range engine.Calls(rt) {
+				if engine.CallNameIs(c, "ResetTo") && !(drop.Block() == c.Block() || drop.Block().Dominates(c.Block())) {
+					ok = false
+				}
+			}
+		}
+		r.Check(ok, "C13-R5", "AppState.ResetTo|the read-only cache is dropped before the trees are rewound", p.Pos(rt.Pos()), "readonlyStateCache reset under its mutex", "AppState.ResetTo keeps the cached read-only view: after the block at a height was replaced, Readonly(height) keeps returning the abandoned version's state (the mempool validates against it; with pruning its tree nodes are gone)")
+	}
 	// ---------------- R8: the view's validator cache belongs to the view (shared with C10); a key deleted
 	// on the view masks the base entry in range iteration exactly as it does in point reads
 	importRules(p, r, "C10", map[string]string{"C10-R6": "C13-R8"})
